@@ -16,6 +16,13 @@ Section QueueCL.
   Definition cl_enq (q : list M) (m : M) : list M := q ++ [m].                      (* appendleft *)
   Definition cl_deq (q : list M) : list M * option M := (tl q, hd_error q).         (* pop *)
 
+  (* peek: read-only, ready iff the deque is non-empty, shows the element pop() would return *)
+  Definition cl_peek_rdy (q : list M) : bool := (0 <? length q)%nat.                (* len(queue) > 0 *)
+  Definition cl_peek (q : list M) : option M := hd_error q.                         (* queue[-1] *)
+  (* the deque as the consumer's block finds it: untouched if it runs before the producer's block, else after the enq *)
+  Definition cl_at_consumer (enq_first : bool) (q : list M) (o : offer M) (f : fout M) : list M :=
+    if enq_first && f_enq_fire f then cl_enq q (o_msg o) else q.
+
   Definition cl_step (k : qkind) (n : nat) (enq_first : bool) (q : list M) (o : offer M) : list M * fout M :=
     match k with
     | Pipe =>
